@@ -30,3 +30,35 @@ Print Assumptions C16_serial_from_multi_error_iff.
 Example C16_example : positive_shape [2;3;2] /\ 0 <= 7 < prodz [2;3;2] /\ in_range [2;3;2] [1;0;1]
   /\ multi_from_serial [2;3;2] 7 = [1;0;1] /\ serial_from_multi [2;3;2] [1;0;1] = Some 7.
 Proof. repeat split; try (repeat constructor; lia); try reflexivity; cbn; lia. Qed.
+
+(* ---- MultinomialDistribution (model in Model/Multinomial.v), any ordered field *)
+From QV.Core Require Import OF QcOF.
+From QV.Model Require Import Multinomial.
+From QV.Proofs Require Import C16_Multinomial.
+From Coq Require Import Permutation QArith Qcanon.
+
+(* accepted, non-zero distributions are entrywise non-negative and normalised (within the validation
+   tolerance; exactly when sub-threshold entries were zeroed and the rest renormalised) *)
+Theorem C16_construct_normalised : forall (F : OF) tol eps ps shape d,
+  kle F (c0 F) eps -> eps <> c0 F ->
+  construct F tol eps ps shape = MOk d -> d_zero F d = false ->
+  Forall (fun p => kle F (c0 F) p) (d_ps F d) /\
+  kle F (absF F (csub F (lsum F (d_ps F d)) (c1 F))) tol /\
+  (existsb (fun p => ltb F p eps) ps = true -> lsum F (d_ps F d) = c1 F).
+Proof. exact construct_normalised. Qed.
+Print Assumptions C16_construct_normalised.
+
+(* the marginal depends only on the set of retained variables, not on the order they are listed in *)
+Theorem C16_marginalize_order_irrelevant : forall (F : OF) tol d rem rem',
+  Permutation rem rem' -> marginalize F tol d rem = marginalize F tol d rem'.
+Proof. exact marginalize_order_irrelevant. Qed.
+Print Assumptions C16_marginalize_order_irrelevant.
+
+(* non-vacuity over Qc: a 2x2 tensor with a sub-threshold entry is accepted, zeroed and renormalised *)
+Example C16_construct_example :
+  let tol := Q2Qc (1 # 100000000) in
+  match construct Qc_OF tol tol [Q2Qc (1#2); Q2Qc (1#4); Q2Qc (1#4); Q2Qc (1#10000000000)] (Some [2;2]%nat) with
+  | MOk d => d_zero Qc_OF d = false /\ lsum Qc_OF (d_ps Qc_OF d) = 1%Qc /\ nth 3 (d_ps Qc_OF d) 1%Qc = 0%Qc
+  | MErr _ => False
+  end.
+Proof. vm_compute. repeat split; reflexivity. Qed.
